@@ -420,9 +420,10 @@ def judge (family : String) (cfg : Cfg) (req sup del : Val) (outcomeOk : Bool) :
     | _ => none
   | "append" => do
     let d ← vOpt vAppend sup
-    if !outcomeOk then pure { wf := true, diff := some "no-delivery" } else
+    let wf := wfAppend d
+    if !outcomeOk then pure { wf, diff := some "no-delivery" } else
     let got ← vAppend del
-    pure { wf := true, diff := if canonAppend d = got then none else some "appenduid" }
+    pure { wf, diff := if canonAppend d = got then none else some "appenduid" }
   | "copy" => do
     let d ← vOpt vCopy sup
     let wf := wfCopy d
